@@ -347,6 +347,12 @@ func formatInto(sb *strings.Builder, format string, args []string, percentB bool
 				fallthrough
 			default: // no escape sequence
 				sb.WriteByte('\\')
+				if c == '%' {
+					// the backslash is literal; the percent sign
+					// still begins a directive
+					i--
+					break
+				}
 				sb.WriteByte(c)
 			}
 		case len(fmts) > 0:
